@@ -37,38 +37,157 @@ def _dotted(e) -> str:
     raise TranslationError(f"callee {ast.dump(e)[:60]}")
 
 
-def expr(e, params: List[str]) -> str:
+KINDS = {"intersect": {"left": "list", "right": "list"}, "difference": {"left": "list", "right": "list"},
+         "unique_size": {"collection": "list"}, "normalize": {"string": "str"}, "glob": {"text": "str", "pattern": "str"}}
+RESULT_KIND = {"intersect": "bool", "difference": "bool", "unique_size": "nat", "normalize": "str", "glob": "bool"}
+CMP = {ast.Gt: ">", ast.GtE: "≥", ast.Lt: "<", ast.LtE: "≤", ast.Eq: "=", ast.NotEq: "≠"}
+
+
+def _as_set(x):
+    """an iterable argument of a set method: a list is turned into a set first"""
+    l, k = x
+    if k == "set":
+        return l
+    if k == "list":
+        return f"(pySet {l})"
+    raise TranslationError(f"set operand of kind {k}")
+
+
+def _truth(x):
+    """Python truthiness of a translated value"""
+    l, k = x
+    if k == "bool":
+        return l
+    if k in ("set", "list"):
+        return f"(pyBool {l})"
+    if k == "nat":
+        return f"(decide ({l} ≠ 0))"
+    raise TranslationError(f"truth value of kind {k}")
+
+
+def expr(e, params):
+    """Python expression → (Lean term, kind); kinds: list, set, bool, nat, str.  `params`: name → kind."""
     if isinstance(e, ast.Name):
         if e.id not in params:
             raise TranslationError(f"free name {e.id}")
-        return e.id
+        return e.id, params[e.id]
+    if isinstance(e, ast.Constant):
+        if e.value is True or e.value is False:
+            return ("true" if e.value else "false"), "bool"
+        if isinstance(e.value, int) and e.value >= 0:
+            return str(e.value), "nat"
+        raise TranslationError(f"constant {e.value!r}")
     if isinstance(e, ast.BinOp):
         l, r = expr(e.left, params), expr(e.right, params)
+        if l[1] != "set" or r[1] != "set":
+            raise TranslationError(f"binary operator on kinds {l[1]}, {r[1]}")
         if isinstance(e.op, ast.BitAnd):
-            return f"(pyAnd {l} {r})"
+            return f"(pyAnd {l[0]} {r[0]})", "set"
         if isinstance(e.op, ast.Sub):
-            return f"(pySub {l} {r})"
+            return f"(pySub {l[0]} {r[0]})", "set"
         raise TranslationError(f"binop {type(e.op).__name__}")
+    if isinstance(e, ast.UnaryOp) and isinstance(e.op, ast.Not):
+        return f"(!{_truth(expr(e.operand, params))})", "bool"
+    if isinstance(e, ast.IfExp):
+        c = _truth(expr(e.test, params))
+        a, b = expr(e.body, params), expr(e.orelse, params)
+        if a[1] != b[1]:
+            raise TranslationError("conditional expression with branches of different kinds")
+        return f"(if {c} then {a[0]} else {b[0]})", a[1]
+    if isinstance(e, ast.Compare) and len(e.ops) == 1:
+        l, r = expr(e.left, params), expr(e.comparators[0], params)
+        op = type(e.ops[0])
+        if l[1] == "nat" and r[1] == "nat" and op in CMP:
+            return f"(decide ({l[0]} {CMP[op]} {r[0]}))", "bool"
+        if l[1] == "set" and r[1] == "set" and op is ast.LtE:
+            return f"(pyIsSubset {l[0]} {r[0]})", "bool"
+        raise TranslationError(f"comparison {type(e.ops[0]).__name__} on kinds {l[1]}, {r[1]}")
     if isinstance(e, ast.Call):
         if e.keywords:
             raise TranslationError("keyword arguments")
         fn = e.func
-        if isinstance(fn, ast.Attribute) and not e.args and fn.attr in ("lower", "strip"):
+        if isinstance(fn, ast.Attribute) and fn.attr in ("lower", "strip") and not e.args:
             inner = expr(fn.value, params)
-            return f"({'pyLower' if fn.attr == 'lower' else 'pyStrip'} {inner})"
+            if inner[1] != "str":
+                raise TranslationError(f".{fn.attr}() on kind {inner[1]}")
+            return f"({'pyLower' if fn.attr == 'lower' else 'pyStrip'} {inner[0]})", "str"
+        if isinstance(fn, ast.Attribute) and fn.attr in ("intersection", "difference", "isdisjoint", "issubset") \
+                and len(e.args) == 1 and not (isinstance(fn.value, ast.Name) and fn.value.id == "fnmatch"):
+            recv = expr(fn.value, params)
+            if recv[1] != "set":
+                raise TranslationError(f".{fn.attr}() on kind {recv[1]}")
+            arg = _as_set(expr(e.args[0], params))
+            if fn.attr == "intersection":
+                return f"(pyAnd {recv[0]} {arg})", "set"
+            if fn.attr == "difference":
+                return f"(pySub {recv[0]} {arg})", "set"
+            if fn.attr == "isdisjoint":
+                return f"(pyIsDisjoint {recv[0]} {arg})", "bool"
+            return f"(pyIsSubset {recv[0]} {arg})", "bool"
         name = _dotted(fn)
         args = [expr(a, params) for a in e.args]
-        one = {"set": "pySet", "bool": "pyBool", "len": "pyLen",
-               "celtypes.BoolType": "celBool", "celtypes.IntType": "celInt", "celtypes.StringType": "celStr"}
-        if name in one and len(args) == 1:
-            return f"({one[name]} {args[0]})"
         if name == "cast" and len(e.args) == 2:
-            return args[1] if False else expr(e.args[1], params)
+            return expr(e.args[1], params)
+        if len(args) == 1:
+            a = args[0]
+            if name in ("set", "frozenset") and a[1] in ("list", "set"):
+                return (a[0] if a[1] == "set" else f"(pySet {a[0]})"), "set"
+            if name == "bool":
+                return _truth(a), "bool"
+            if name == "len" and a[1] in ("list", "set"):
+                return f"(pyLen {a[0]})", "nat"
+            if name in ("celtypes.BoolType", "BoolType"):
+                return f"(celBool {_truth(a)})", "bool"
+            if name in ("celtypes.IntType", "IntType") and a[1] == "nat":
+                return f"(celInt {a[0]})", "nat"
+            if name in ("celtypes.StringType", "StringType") and a[1] == "str":
+                return f"(celStr {a[0]})", "str"
         two = {"fnmatch.fnmatch": "fnmatch", "fnmatch.fnmatchcase": "fnmatchcase"}
-        if name in two and len(args) == 2:
-            return f"({two[name]} {args[0]} {args[1]})"
-        raise TranslationError(f"call {name}/{len(args)}")
+        if name in two and len(args) == 2 and args[0][1] == "str" and args[1][1] == "str":
+            return f"({two[name]} {args[0][0]} {args[1][0]})", "bool"
+        raise TranslationError(f"call {name}/{len(args)} on kinds {[a[1] for a in args]}")
     raise TranslationError(f"expression {type(e).__name__}")
+
+
+def _single_assignments(fn: ast.FunctionDef):
+    """names assigned exactly once in the function (by a plain `x = e` / `x: T = e`), with their value"""
+    count, val = {}, {}
+    for node in ast.walk(fn):
+        tgts = []
+        if isinstance(node, ast.Assign):
+            tgts = node.targets
+        elif isinstance(node, (ast.AnnAssign, ast.AugAssign)):
+            tgts = [node.target]
+        elif isinstance(node, (ast.For, ast.comprehension)):
+            tgts = [node.target]
+        elif isinstance(node, ast.NamedExpr):
+            tgts = [node.target]
+        for t in tgts:
+            for n in ast.walk(t):
+                if isinstance(n, ast.Name):
+                    count[n.id] = count.get(n.id, 0) + 1
+                    if isinstance(node, (ast.Assign, ast.AnnAssign)) and isinstance(t, ast.Name) and node.value is not None \
+                            and not (isinstance(node, ast.Assign) and len(node.targets) != 1):
+                        val[n.id] = node.value
+                    else:
+                        val.pop(n.id, None)
+    return {k: v for k, v in val.items() if count.get(k) == 1}
+
+
+def _returns_to_expr(stmts) -> ast.expr:
+    """`return e` | `if c: return a else: return b` | `if c: return a` followed by more → one expression (IfExp)"""
+    if not stmts:
+        raise TranslationError("falls off the end")
+    st = stmts[0]
+    if isinstance(st, ast.Return):
+        if st.value is None:
+            raise TranslationError("bare return")
+        return st.value
+    if isinstance(st, ast.If):
+        thn = _returns_to_expr(list(st.body))
+        els = _returns_to_expr(list(st.orelse) if st.orelse else stmts[1:])
+        return ast.IfExp(test=st.test, body=thn, orelse=els)
+    raise TranslationError(f"statement {type(st).__name__}")
 
 
 def one_liner(mod: ast.Module, name: str) -> str:
@@ -79,26 +198,324 @@ def one_liner(mod: ast.Module, name: str) -> str:
     if fn.decorator_list:
         raise TranslationError(f"{name}: decorator")
     body = [s for s in strip_doc(fn.body) if not is_logger_call(s)]
-    # single-assignment locals are inlined: `x = e; return f(x)`
+    # single-assignment locals are inlined: `x = e; return f(x)` (the helpers are pure, so evaluation order is immaterial)
     env = {}
-    for st in body[:-1]:
+    i = 0
+    while i < len(body) and isinstance(body[i], (ast.Assign, ast.AnnAssign)):
+        st = body[i]
         if isinstance(st, ast.Assign) and len(st.targets) == 1 and isinstance(st.targets[0], ast.Name):
-            env[st.targets[0].id] = st.value
+            tgt = st.targets[0].id
         elif isinstance(st, ast.AnnAssign) and isinstance(st.target, ast.Name) and st.value is not None:
-            env[st.target.id] = st.value
+            tgt = st.target.id
         else:
             raise TranslationError(f"{name}: statement {type(st).__name__}")
-    if not body or not isinstance(body[-1], ast.Return) or body[-1].value is None:
-        raise TranslationError(f"{name}: body is not `return <expr>`")
+        if tgt in env or tgt in params:
+            raise TranslationError(f"{name}: `{tgt}` is assigned twice")
+        env[tgt] = st.value
+        i += 1
+    try:
+        ret = _returns_to_expr(body[i:])
+    except TranslationError as ex:
+        raise TranslationError(f"{name}: body is not assignments followed by returns ({ex})")
 
     class Inline(ast.NodeTransformer):
         def visit_Name(self, node):
             if node.id in env:
                 return self.visit(env[node.id])
             return node
-    ret = Inline().visit(body[-1].value)
+    ret = Inline().visit(ret)
     sig, res = SIGS[name]
-    return f"def {name} {sig} : {res} :=\n  {expr(ret, params)}\n"
+    term, kind = expr(ret, KINDS[name])
+    if kind != RESULT_KIND[name]:
+        raise TranslationError(f"{name}: result of kind {kind}, expected {RESULT_KIND[name]}")
+    return f"def {name} {sig} : {res} :=\n  {term}\n"
+
+
+# ---- key(): a first-match scan -----------------------------------------------------------------------------------------
+
+def _strip_cast(e):
+    while isinstance(e, ast.Call) and isinstance(e.func, ast.Name) and e.func.id == "cast" and len(e.args) == 2 and not e.keywords:
+        e = e.args[1]
+    return e
+
+
+class _Scan:
+    """`key(source, target)`: both spellings of "the first item whose X equals target" are brought to
+    pyFirst (λ item, pred) (λ item, result) default source:
+       A  matches = (item for item in source if PRED); try: return RES[next(matches)] except StopIteration: return DFLT
+       B  for item in source: [locals]; if PRED: return RES  …  return DFLT
+    PRED is `<get> == target`, RES is `<get>`, <get> is `item.get(CONST)` / `item[CONST]` up to `cast` and
+    single-assignment locals."""
+
+    def __init__(self, fn: ast.FunctionDef, source: str, target: str):
+        self.fn, self.source, self.target = fn, source, target
+        self.env = _single_assignments(fn)
+
+    @staticmethod
+    def pure(e) -> bool:
+        """values a local may hold and still be inlined: they cannot raise and do not depend on when they are evaluated
+        (names, constants, `cast`, the StringType of a literal, a - lazy - generator expression)"""
+        e = _strip_cast(e)
+        if isinstance(e, (ast.Name, ast.Constant, ast.GeneratorExp)):
+            return True
+        if isinstance(e, ast.Call) and not e.keywords and len(e.args) == 1 and isinstance(e.args[0], ast.Constant) \
+                and isinstance(e.args[0].value, str):
+            try:
+                return _dotted(e.func) in ("celtypes.StringType", "StringType", "str")
+            except TranslationError:
+                return False
+        return False
+
+    def resolve(self, e, item: str, depth=0):
+        e = _strip_cast(e)
+        if isinstance(e, ast.Name) and e.id not in (item, self.source, self.target) and e.id in self.env and depth < 8:
+            return self.resolve(self.env[e.id], item, depth + 1)
+        return e
+
+    def const(self, e, item) -> str:
+        return _str_const(self.resolve(e, item))
+
+    def get(self, e, item) -> str:
+        """`item.get(K)` / `item[K]` → the constant K"""
+        e = self.resolve(e, item)
+        if isinstance(e, ast.Call) and isinstance(e.func, ast.Attribute) and e.func.attr == "get" and len(e.args) == 1 \
+                and not e.keywords:
+            recv, k = e.func.value, e.args[0]
+        elif isinstance(e, ast.Subscript):
+            recv, k = e.value, e.slice
+        else:
+            raise TranslationError(f"key(): not a mapping access: {ast.unparse(e)[:60]}")
+        recv = self.resolve(recv, item)
+        if not (isinstance(recv, ast.Name) and recv.id == item):
+            raise TranslationError(f"key(): mapping access on {ast.unparse(recv)[:40]}, not on the scanned item")
+        return self.const(k, item)
+
+    def pred(self, e, item) -> str:
+        e = self.resolve(e, item)
+        if not (isinstance(e, ast.Compare) and len(e.ops) == 1 and isinstance(e.ops[0], ast.Eq)):
+            raise TranslationError(f"key(): condition {ast.unparse(e)[:60]}")
+        a, b = self.resolve(e.left, item), self.resolve(e.comparators[0], item)
+        if isinstance(a, ast.Name) and a.id == self.target:
+            a, b = b, a
+        if not (isinstance(b, ast.Name) and b.id == self.target):
+            raise TranslationError("key(): the condition does not compare with the target")
+        return self.get(a, item)
+
+    def result(self, e, item):
+        """→ ('get', K) or ('none',)"""
+        e = self.resolve(e, item)
+        if isinstance(e, ast.Constant) and e.value is None:
+            return ("none",)
+        return ("get", self.get(e, item))
+
+    def translate(self):
+        body = [s for s in strip_doc(self.fn.body) if not is_logger_call(s)]
+        # leading constant / generator assignments are reached through self.env
+        rest = [s for s in body if not isinstance(s, (ast.Assign, ast.AnnAssign))]
+        for s in body:
+            if isinstance(s, (ast.Assign, ast.AnnAssign)):
+                t = s.targets[0] if isinstance(s, ast.Assign) else s.target
+                if not (isinstance(t, ast.Name) and t.id in self.env):
+                    raise TranslationError("key(): a local is assigned more than once")
+                if not self.pure(s.value):
+                    raise TranslationError(f"key(): local `{t.id}` holds a computed value ({ast.unparse(s.value)[:40]})")
+        if rest and isinstance(rest[0], ast.Try):
+            return self.form_a(rest)
+        if rest and isinstance(rest[0], ast.For):
+            return self.form_b(rest)
+        raise TranslationError("key(): neither generator+next nor a for loop with early return")
+
+    def form_a(self, rest):
+        tr = rest[0]
+        if len(rest) != 1 or tr.orelse or tr.finalbody or len(tr.handlers) != 1 or not tr.body \
+                or not isinstance(tr.body[-1], ast.Return) or tr.body[-1].value is None:
+            raise TranslationError("key(): try statement shape")
+        h = tr.handlers[0]
+        if not (isinstance(h.type, ast.Name) and h.type.id == "StopIteration") or len(h.body) != 1 \
+                or not isinstance(h.body[0], ast.Return):
+            raise TranslationError("key(): handler shape")
+        dflt = h.body[0].value or ast.Constant(None)
+        retval = tr.body[-1].value
+
+        def is_next(n):
+            return isinstance(n, ast.Call) and isinstance(n.func, ast.Name) and n.func.id == "next"
+        # `first = next(matches)` before the return: the local stands for the item found
+        first_local = None
+        if len(tr.body) == 2 and isinstance(tr.body[0], (ast.Assign, ast.AnnAssign)):
+            st = tr.body[0]
+            t = st.targets[0] if isinstance(st, ast.Assign) else st.target
+            if not (isinstance(t, ast.Name) and t.id in self.env and st.value is not None and is_next(_strip_cast(st.value))):
+                raise TranslationError("key(): try statement shape")
+            first_local = t.id
+            nexts = [_strip_cast(st.value)]
+            if any(is_next(n) for n in ast.walk(retval)):
+                raise TranslationError("key(): next() called twice")
+        elif len(tr.body) == 1:
+            # the single next(<generator>) inside the returned expression
+            nexts = [n for n in ast.walk(retval) if is_next(n)]
+        else:
+            raise TranslationError("key(): try statement shape")
+        if len(nexts) != 1 or len(nexts[0].args) != 1 or nexts[0].keywords:
+            raise TranslationError("key(): exactly one next(generator) expected")
+        gen = self.resolve(nexts[0].args[0], "")
+        if not isinstance(gen, ast.GeneratorExp) or len(gen.generators) != 1:
+            raise TranslationError("key(): next() of something that is not a generator expression")
+        comp = gen.generators[0]
+        if comp.is_async or not isinstance(comp.target, ast.Name) or len(comp.ifs) != 1:
+            raise TranslationError("key(): generator shape")
+        item = comp.target.id
+        if not (isinstance(comp.iter, ast.Name) and comp.iter.id == self.source):
+            raise TranslationError("key(): the generator does not scan the source list")
+        if not (isinstance(_strip_cast(gen.elt), ast.Name) and _strip_cast(gen.elt).id == item):
+            raise TranslationError("key(): the generator does not yield the item itself")
+        pk = self.pred(comp.ifs[0], item)
+
+        class Sub(ast.NodeTransformer):
+            def visit_Call(self, node):
+                if node is nexts[0]:
+                    return ast.Name(id=item, ctx=ast.Load())
+                return self.generic_visit(node)
+
+            def visit_Name(self, node):
+                if first_local is not None and node.id == first_local:
+                    return ast.Name(id=item, ctx=ast.Load())
+                return node
+        if first_local is not None:
+            self.env.pop(first_local, None)
+        res = self.result(Sub().visit(retval), item)
+        return pk, res, self.result(dflt, item)
+
+    def form_b(self, rest):
+        loop = rest[0]
+        if not isinstance(loop.target, ast.Name) or not (isinstance(loop.iter, ast.Name) and loop.iter.id == self.source):
+            raise TranslationError("key(): the loop does not scan the source list")
+        item = loop.target.id
+        after = list(loop.orelse) + rest[1:]
+        if any(isinstance(n, (ast.Break, ast.Continue)) for n in ast.walk(loop)):
+            raise TranslationError("key(): break/continue in the loop")
+        lb = [s for s in loop.body if not isinstance(s, (ast.Assign, ast.AnnAssign)) and not is_logger_call(s)]
+        if len(lb) != 1 or not isinstance(lb[0], ast.If) or lb[0].orelse or len(lb[0].body) != 1 \
+                or not isinstance(lb[0].body[0], ast.Return):
+            raise TranslationError("key(): loop body is not `if <cond>: return <value>`")
+        # locals of the loop body must be defined before the test (they are inlined)
+        idx = loop.body.index(lb[0])
+        for st in loop.body[:idx]:
+            if isinstance(st, (ast.Assign, ast.AnnAssign)):
+                t = st.targets[0] if isinstance(st, ast.Assign) else st.target
+                if not (isinstance(t, ast.Name) and t.id in self.env and st.value is not None and self.pure(st.value)):
+                    raise TranslationError("key(): a loop local holds a computed value or is assigned twice")
+        if any(isinstance(s, (ast.Assign, ast.AnnAssign)) for s in loop.body[idx + 1:]):
+            raise TranslationError("key(): assignment after the test")
+        pk = self.pred(lb[0].test, item)
+        res = self.result(lb[0].body[0].value or ast.Constant(None), item)
+        if not after:
+            dflt = ("none",)
+        elif len(after) == 1 and isinstance(after[0], ast.Return):
+            dflt = self.result(after[0].value or ast.Constant(None), item)
+        else:
+            raise TranslationError("key(): statements after the loop")
+        return pk, res, dflt
+
+
+def gen_key(mod: ast.Module) -> List[str]:
+    fn = find_func(mod.body, "key")
+    params = [a.arg for a in fn.args.args]
+    if len(params) != 2 or fn.args.vararg or fn.args.kwarg or fn.args.kwonlyargs or fn.args.defaults or fn.decorator_list:
+        raise TranslationError(f"key: parameters {params}")
+    pk, res, dflt = _Scan(fn, params[0], params[1]).translate()
+
+    def rterm(r):
+        if r[0] == "none":
+            return "(pure none)"
+        return f"(do let v ← Tag.get item (ofString {lean_str(r[1])}); pure (some v))"
+    if res[0] != "get":
+        raise TranslationError("key(): the value returned for a match is not a mapping access")
+    out = ["/-- `key(source, target)`: first item whose entry `tagKeyName` equals the target (for loop with early return, or a lazy",
+           "generator consumed by one `next()`; `MapType.get` raises KeyError for a missing entry) -/",
+           "def key (source : List (Tag Str)) (target : Str) : PyM (Option Str) :=",
+           f"  pyFirst (fun item => do let k ← Tag.get item (ofString {lean_str(pk)}); pure (decide (k = target)))",
+           f"    (fun item => {rterm(res)})",
+           f"    {rterm(dflt) if dflt[0] == 'none' else '(pure none) /- unsupported default -/'} source\n"]
+    if dflt[0] != "none":
+        raise TranslationError("key(): the default is not None")
+    out.append(f"def tagKeyName : String := {lean_str(pk)}")
+    out.append(f"def tagValueName : String := {lean_str(res[1])}")
+    out.append("")
+    return out
+
+
+# ---- size_parse_cidr(): a decision over the parsed value -----------------------------------------------------------------
+
+def gen_size(mod: ast.Module) -> List[str]:
+    fn = find_func(mod.body, "size_parse_cidr")
+    params = [a.arg for a in fn.args.args]
+    if len(params) != 1 or fn.args.vararg or fn.args.kwarg or fn.args.kwonlyargs or fn.args.defaults or fn.decorator_list:
+        raise TranslationError(f"size_parse_cidr: parameters {params}")
+    value = params[0]
+    body = [s for s in strip_doc(fn.body) if not is_logger_call(s)]
+    env = _single_assignments(fn)
+
+    def is_parse(e) -> bool:
+        return (isinstance(e, ast.Call) and isinstance(e.func, ast.Name) and e.func.id == "parse_cidr" and len(e.args) == 1
+                and not e.keywords and isinstance(e.args[0], ast.Name) and e.args[0].id == value)
+    local = None
+    if body and isinstance(body[0], (ast.Assign, ast.AnnAssign)):
+        st = body[0]
+        t = st.targets[0] if isinstance(st, ast.Assign) else st.target
+        if isinstance(t, ast.Name) and t.id in env and st.value is not None and is_parse(st.value):
+            local = t.id
+            body = body[1:]
+
+    def is_cidr(e) -> bool:
+        e = _strip_cast(e)
+        return (isinstance(e, ast.Name) and e.id == local and local is not None) or is_parse(e)
+
+    def test(e) -> str:
+        if is_cidr(e):
+            return "(cidrTruthy cidr)"
+        if isinstance(e, ast.UnaryOp) and isinstance(e.op, ast.Not):
+            return f"(!{test(e.operand)})"
+        if isinstance(e, ast.BoolOp):
+            op = " && " if isinstance(e.op, ast.And) else " || "
+            return "(" + op.join(test(v) for v in e.values) + ")"
+        if isinstance(e, ast.Call) and isinstance(e.func, ast.Name) and e.func.id == "isinstance" and len(e.args) == 2 \
+                and not e.keywords and is_cidr(e.args[0]) and isinstance(e.args[1], ast.Name) and e.args[1].id == "IPv4Network":
+            return "(cidrIsNet cidr)"
+        if isinstance(e, ast.Compare) and len(e.ops) == 1 and is_cidr(e.left) and isinstance(e.comparators[0], ast.Constant) \
+                and e.comparators[0].value is None and isinstance(e.ops[0], (ast.Is, ast.IsNot)):
+            return "(cidrIsNone cidr)" if isinstance(e.ops[0], ast.Is) else "(!(cidrIsNone cidr))"
+        raise TranslationError(f"size_parse_cidr: condition {ast.unparse(e)[:60]}")
+
+    def val(e) -> str:
+        e = _strip_cast(e)
+        if isinstance(e, ast.Constant) and e.value is None:
+            return "(pure none)"
+        if isinstance(e, ast.IfExp):
+            return f"(if {test(e.test)} then {val(e.body)} else {val(e.orelse)})"
+        if isinstance(e, ast.Call) and not e.keywords and len(e.args) == 1 and _dotted(e.func) in ("celtypes.IntType", "IntType"):
+            a = _strip_cast(e.args[0])
+            if isinstance(a, ast.Attribute) and a.attr == "prefixlen" and is_cidr(a.value):
+                return "(do let n ← cidrPrefixlen cidr; pure (some (celInt n)))"
+        raise TranslationError(f"size_parse_cidr: value {ast.unparse(e)[:60]}")
+
+    def stmts(ss) -> str:
+        if not ss:
+            return "(pure none)"        # falling off the end returns None
+        st = ss[0]
+        if isinstance(st, ast.Return):
+            return val(st.value) if st.value is not None else "(pure none)"
+        if isinstance(st, ast.If):
+            def ends(b):      # does the block always return?
+                return bool(b) and (isinstance(b[-1], ast.Return) or
+                                    (isinstance(b[-1], ast.If) and ends(b[-1].body) and ends(b[-1].orelse)))
+            thn = stmts(list(st.body) + ([] if ends(st.body) else ss[1:]))
+            els = stmts(list(st.orelse) + ([] if ends(st.orelse) else ss[1:]))
+            return f"(if {test(st.test)} then {thn} else {els})"
+        if isinstance(st, ast.Pass):
+            return stmts(ss[1:])
+        raise TranslationError(f"size_parse_cidr: statement {type(st).__name__}")
+    return ["/-- `size_parse_cidr` as a function of the value `parse_cidr(value)` returned -/",
+            f"def size_parse_cidr (cidr : Cidr) : PyM (Option Nat) :=\n  {stmts(body)}\n"]
 
 
 # ---- C7NContext -----------------------------------------------------------------------------------------------
@@ -185,9 +602,18 @@ def gen_ctx(mod: ast.Module) -> List[str]:
     rcls = find_class(mod, "C7N_Interpreted_Runner")
     ev = find_func(rcls.body, "evaluate")
     brackets = False
+    hoisted = {}
+    singles = _single_assignments(ev)
+    for st in ev.body:      # `ctx = C7NContext(filter=filter)` as a top-level statement of evaluate, bound once
+        if isinstance(st, (ast.Assign, ast.AnnAssign)):
+            t = st.targets[0] if isinstance(st, ast.Assign) else st.target
+            if isinstance(t, ast.Name) and t.id in singles and st.value is not None:
+                hoisted[t.id] = st.value
     for node in ast.walk(ev):
         if isinstance(node, ast.With) and len(node.items) == 1:
             ce = node.items[0].context_expr
+            if isinstance(ce, ast.Name) and ce.id in hoisted:
+                ce = hoisted[ce.id]
             if (isinstance(ce, ast.Call) and _dotted(ce.func) == "C7NContext" and
                     ((len(ce.keywords) == 1 and ce.keywords[0].arg == "filter" and ast.unparse(ce.keywords[0].value) == "filter")
                      or (len(ce.args) == 1 and ast.unparse(ce.args[0]) == "filter"))):
@@ -234,20 +660,6 @@ def gen_tables(mod: ast.Module) -> List[str]:
                lean_list([lean_list([lean_str(x) for x in t]) for t in tuples]))
     out.append(f"def arnSep : String := {lean_str(sep)}")
     out.append(f"def arnPrefix : String := {lean_str(prefix)}\n")
-    # key
-    kf = find_func(mod.body, "key")
-    consts = {}
-    for st in kf.body:
-        if isinstance(st, ast.Assign) and isinstance(st.targets[0], ast.Name):
-            try:
-                consts[st.targets[0].id] = _str_const(st.value)
-            except TranslationError:
-                pass
-    if "key" not in consts or "value" not in consts:
-        raise TranslationError("key(): the `key`/`value` name constants were not found")
-    out.append(f"def tagKeyName : String := {lean_str(consts['key'])}")
-    out.append(f"def tagValueName : String := {lean_str(consts['value'])}")
-    out.append("")
     # marked_key
     mk = find_func(mod.body, "marked_key")
     splits = []
@@ -304,9 +716,11 @@ def gen_tables(mod: ast.Module) -> List[str]:
 def gen_c7n() -> str:
     m = parse("src/celpy/c7nlib.py")
     out = [HEADER.format(src="src/celpy/c7nlib.py (set helpers, normalize, glob, C7NContext, tables)"),
-           "import Cel.Model.C7n\nnamespace Cel.Gen.C7n\nopen Cel.C7n (Str pySet pyAnd pySub pyBool pyLen pyLower pyStrip fnmatch fnmatchcase celBool celInt celStr)\n"]
+           "import Cel.Model.C7n\nnamespace Cel.Gen.C7n\nopen Cel.C7n (Str ofString pySet pyAnd pySub pyBool pyLen pyIsDisjoint pyIsSubset pyLower pyStrip fnmatch fnmatchcase celBool celInt celStr\n  pyFirst Tag Tag.get Cidr cidrTruthy cidrIsNone cidrIsNet cidrPrefixlen)\n"]
     for n in ("intersect", "difference", "unique_size", "normalize", "glob"):
         out.append(one_liner(m, n))
+    out += gen_key(m)
+    out += gen_size(m)
     out += gen_ctx(m)
     out += gen_tables(m)
     out.append("end Cel.Gen.C7n\n")
